@@ -262,7 +262,8 @@ impl Srv {
                         nc.port = port;
                         nc.max_connections = maxc;
                         nc.min_backoff_ms = 1;
-                        nc.max_backoff_ms = 2;
+                        // a few consecutive accept errors are tolerated (1+2+4+...+64 ms), as in production
+                        nc.max_backoff_ms = 64;
                         match nc.async_server(w, async move { let _ = rx.await; }).await {
                             Ok(srv) => {
                                 *st2.0.lock().unwrap() = Some(Ok(()));
@@ -328,6 +329,43 @@ impl Srv {
             }
         }
         Err(last.unwrap())
+    }
+
+    /// Connect from a local port that is registered first so that the server's accept of exactly
+    /// this connection fails with ECONNABORTED.
+    pub fn connect_to_be_aborted(&self) -> std::io::Result<TcpStream> {
+        use std::os::unix::io::FromRawFd;
+        unsafe {
+            let fd = libc::socket(libc::AF_INET, libc::SOCK_STREAM | libc::SOCK_CLOEXEC, 0);
+            if fd < 0 {
+                return Err(std::io::Error::last_os_error());
+            }
+            let mut sa: libc::sockaddr_in = std::mem::zeroed();
+            sa.sin_family = libc::AF_INET as u16;
+            sa.sin_addr.s_addr = u32::from_ne_bytes([127, 0, 0, 1]);
+            sa.sin_port = 0;
+            if libc::bind(fd, &sa as *const _ as *const libc::sockaddr, std::mem::size_of::<libc::sockaddr_in>() as u32) != 0 {
+                let e = std::io::Error::last_os_error();
+                libc::close(fd);
+                return Err(e);
+            }
+            let mut sl = std::mem::size_of::<libc::sockaddr_in>() as libc::socklen_t;
+            libc::getsockname(fd, &mut sa as *mut _ as *mut libc::sockaddr, &mut sl);
+            let local_port = u16::from_be(sa.sin_port);
+            iohook::accept_abort_port(local_port);
+            let mut dst: libc::sockaddr_in = std::mem::zeroed();
+            dst.sin_family = libc::AF_INET as u16;
+            dst.sin_addr.s_addr = u32::from_ne_bytes([127, 0, 0, 1]);
+            dst.sin_port = self.port.to_be();
+            if libc::connect(fd, &dst as *const _ as *const libc::sockaddr, std::mem::size_of::<libc::sockaddr_in>() as u32) != 0 {
+                let e = std::io::Error::last_os_error();
+                libc::close(fd);
+                return Err(e);
+            }
+            let s = TcpStream::from_raw_fd(fd);
+            s.set_nodelay(true)?;
+            Ok(s)
+        }
     }
 
     pub fn fire_shutdown(&mut self) {
@@ -633,11 +671,14 @@ pub enum Delivery {
     ByteWise,
     Cuts(Vec<usize>),
     LockStep,
+    /// send the first `c` bytes, WAIT for the replies of every request completely contained in
+    /// them, then send the rest (a reply must not depend on bytes the client has not sent yet)
+    CutWait(usize),
 }
 
 fn caps_for(d: &Delivery, n: usize) -> Option<Vec<usize>> {
     match d {
-        Delivery::Whole | Delivery::LockStep => None,
+        Delivery::Whole | Delivery::LockStep | Delivery::CutWait(_) => None,
         Delivery::ByteWise => Some(vec![1; n]),
         Delivery::Cuts(c) => {
             let mut v = vec![];
@@ -677,6 +718,26 @@ pub fn c06_case(dir: &Path, word: &[Req], delivery: &Delivery) -> Result<String,
                         return Err(("reply-missing".into(), format!("{} while waiting for the reply to {} (got {:?})", how, r.show(), String::from_utf8_lossy(&b))));
                     }
                 }
+            }
+            Delivery::CutWait(cutpos) => {
+                // replies owed after the first c bytes
+                let mut m2 = Kv::new();
+                let mut owed = vec![];
+                let mut pos = 0;
+                for r in word {
+                    pos += r.encode().len();
+                    if pos <= *cutpos {
+                        owed.extend_from_slice(&enc(&r.apply(&mut m2)));
+                    }
+                }
+                iohook::recv_set_script(vec![*cutpos, stream.len() - *cutpos], usize::MAX);
+                c.write_all(&stream[..*cutpos]).map_err(|e| ("connection-broken".to_string(), format!("write: {}", e)))?;
+                let (bts, how) = read_n(&mut c, owed.len(), Duration::from_secs(6));
+                got.extend_from_slice(&bts);
+                if how != "ok" {
+                    return Err(("reply-waits-for-bytes-not-yet-sent".into(), format!("{} bytes of the stream sent: {} while waiting for the {} reply bytes owed for the completed requests, got {:?}", cutpos, how, owed.len(), String::from_utf8_lossy(&bts))));
+                }
+                c.write_all(&stream[*cutpos..]).map_err(|e| ("connection-broken".to_string(), format!("write: {}", e)))?;
             }
             d => {
                 if let Some(caps) = caps_for(d, stream.len()) {
@@ -790,6 +851,9 @@ fn c06(job: &Job, sh: &mut Shard, t0: Instant) {
         if w.len() <= job.tier.pick(2, 3) {
             for &c in &cut_pos {
                 cases.push((w.clone(), Delivery::Cuts(vec![c])));
+                if w.len() >= 2 && !has_big {
+                    cases.push((w.clone(), Delivery::CutWait(c)));
+                }
             }
         }
         // every pair of cuts for short words
@@ -812,7 +876,7 @@ fn c06(job: &Job, sh: &mut Shard, t0: Instant) {
             sh.notes.insert(format!("stopped (time cap or 6 violations in this shard) after {} of {} cases", i, total));
             break;
         }
-        let case = json!({"engine": "net", "kind": "c06", "word": w.iter().map(|r| r.to_json()).collect::<Vec<_>>(), "word_text": w.iter().map(|r| r.show()).collect::<Vec<_>>(), "delivery": format!("{:?}", d), "cuts": match &d { Delivery::Cuts(c) => json!(c), Delivery::ByteWise => json!("bytewise"), Delivery::LockStep => json!("lockstep"), Delivery::Whole => json!("whole") }});
+        let case = json!({"engine": "net", "kind": "c06", "word": w.iter().map(|r| r.to_json()).collect::<Vec<_>>(), "word_text": w.iter().map(|r| r.show()).collect::<Vec<_>>(), "delivery": format!("{:?}", d), "cuts": match &d { Delivery::Cuts(c) => json!(c), Delivery::ByteWise => json!("bytewise"), Delivery::LockStep => json!("lockstep"), Delivery::Whole => json!("whole"), Delivery::CutWait(c) => json!({"cut_wait": c}) }});
         if i % 32 == job.shard {
             job.progress(&case);
         }
@@ -822,7 +886,7 @@ fn c06(job: &Job, sh: &mut Shard, t0: Instant) {
         sh.nontrivial.insert(wkey);
         sh.states.insert(fnv(format!("{:?}{:?}", w, d).as_bytes()));
         match c06_case(&dir, &w, &d) {
-            Ok(o) => sh.outcome(format!("{} / {}", o, match d { Delivery::Whole => "whole", Delivery::ByteWise => "bytewise", Delivery::Cuts(ref c) if c.len() == 1 => "1 cut", Delivery::Cuts(_) => "2 cuts", Delivery::LockStep => "lockstep" })),
+            Ok(o) => sh.outcome(format!("{} / {}", o, match d { Delivery::Whole => "whole", Delivery::ByteWise => "bytewise", Delivery::Cuts(ref c) if c.len() == 1 => "1 cut", Delivery::Cuts(_) => "2 cuts", Delivery::LockStep => "lockstep", Delivery::CutWait(_) => "cut+wait" })),
             Err((class, msg)) if class == "MACHINERY" => sh.machinery_errors.push(format!("C06 {}: {}", msg, case["word_text"])),
             Err((class, msg)) => {
                 // confirm once before reporting
@@ -867,6 +931,7 @@ pub fn replay(prop: &str, case: &Value) -> Vec<Violation> {
                 Value::Array(a) => Delivery::Cuts(a.iter().map(|x| x.as_u64().unwrap() as usize).collect()),
                 Value::String(s) if s == "bytewise" => Delivery::ByteWise,
                 Value::String(s) if s == "lockstep" => Delivery::LockStep,
+                Value::Object(o) if o.contains_key("cut_wait") => Delivery::CutWait(o["cut_wait"].as_u64().unwrap_or(1) as usize),
                 _ => Delivery::Whole,
             };
             if let Err((class, msg)) = c06_case(&dir, &word, &d) {
@@ -887,7 +952,7 @@ pub fn report_meta(prop: &str, tier: Tier) -> (String, Value, Vec<String>) {
     ];
     match prop {
         "C06" => (
-            format!("request words over 14 small requests (incl. a three-key DEL whose first key is absent and a value ending in a lone CR) (SET/GET/DEL on keys a, b, c, é; values with CR LF NUL, empty) up to depth {} plus words of depth <= 2 containing a 9 000-byte value; each word's byte stream is delivered to a fresh real server whole (full pipelining), in lock-step, one byte per recv, with every single cut (words of length <= {}) and with every pair of cuts (words of length <= {}); the complete reply byte stream up to end-of-stream must equal the reference encoding of the map model's answers, and the store (read through the handle) must equal the model. Distinct+non-trivial = distinct request words.", tier.pick(3, 4), tier.pick(2, 3), tier.pick(1, 2)),
+            format!("request words over 14 small requests (incl. a three-key DEL whose first key is absent and a value ending in a lone CR) (SET/GET/DEL on keys a, b, c, é; values with CR LF NUL, empty) up to depth {} plus words of depth <= 2 containing a 9 000-byte value; each word's byte stream is delivered to a fresh real server whole (full pipelining), in lock-step, one byte per recv, with every single cut — both sending everything before reading and WAITING for the replies of the completed requests before sending the rest — (words of length <= {}) and with every pair of cuts (words of length <= {}); the complete reply byte stream up to end-of-stream must equal the reference encoding of the map model's answers, and the store (read through the handle) must equal the model. Distinct+non-trivial = distinct request words.", tier.pick(3, 4), tier.pick(2, 3), tier.pick(1, 2)),
             json!({"depth": tier.pick(3, 4), "alphabet": c06_alphabet().iter().map(|r| r.show()).collect::<Vec<_>>()}),
             common,
         ),
